@@ -108,3 +108,15 @@ Check C06_history_witness : forall u : bool, exists s' : state, run_lines (EndTo
 Print Assumptions C06_history_witness.
 
 
+
+(** ---- the frame that creates the row ---- *)
+From SQ Require Import Base Table Update EndToEnd EndToEnd2.
+
+
+(** a DF5 reply that creates the row delivers its identity code *)
+Theorem C06_new_row : forall (o : opts) (now : Z) (s : state) (line : list N) (s' : state) (rf : bool) (a : N) (m : list N), step_line o now s line = Ok (s', rf, Applied 5 a) -> lookup (tbl s) a = None -> (0 < delete_after o)%Z -> get_message line = Ok (Some m) -> exists r' : row, lookup (tbl s') a = Some r' /\ r_squawk r' = Some (Id13.id_spec m).
+Proof. exact squawk_new_row. Qed.
+Check C06_new_row : forall (o : opts) (now : Z) (s : state) (line : list N) (s' : state) (rf : bool) (a : N) (m : list N), step_line o now s line = Ok (s', rf, Applied 5 a) -> lookup (tbl s) a = None -> (0 < delete_after o)%Z -> get_message line = Ok (Some m) -> exists r' : row, lookup (tbl s') a = Some r' /\ r_squawk r' = Some (Id13.id_spec m).
+Print Assumptions C06_new_row.
+
+
